@@ -21,7 +21,7 @@ const P: &str = "C05";
 
 type T<const D: usize> = Tds<f64, i32, i32, D>;
 
-pub const FAULTS: [&str; 24] = [
+pub const FAULTS: [&str; 25] = [
     "neighbor-dangling",
     "neighbor-none",
     "neighbor-other-live-cell",
@@ -46,6 +46,7 @@ pub const FAULTS: [&str; 24] = [
     "uuid-map-remove-vertex-entry",
     "uuid-map-cross-cell-entries",
     "vertex-uuid-nil",
+    "pinch-vertex-star",
 ];
 
 fn dead_cell_key<const D: usize>(tds: &mut T<D>) -> Option<CellKey> {
@@ -304,11 +305,67 @@ pub fn apply_fault<const D: usize>(tds: &mut T<D>, fault: &str, rng: &mut Rng) -
             m.insert(uuid::Uuid::nil(), vk);
             Some(format!("vertex {:?}", vk))
         }
+        "pinch-vertex-star" => {
+            // Keep two cells of the star of a vertex that share nothing but that vertex and delete the
+            // rest of the star (pointers cleared, incidence re-pointed): the vertex link becomes
+            // disconnected while every remaining cell stays a proper cell.
+            let mut order = vertex_keys.clone();
+            rng.shuffle(&mut order);
+            for v in order.into_iter().take(12) {
+                let star: Vec<(CellKey, Vec<VertexKey>)> = tds.cells().filter(|(_, c)| c.vertices().contains(&v)).map(|(k, c)| (k, c.vertices().to_vec())).collect();
+                if star.len() < 3 {
+                    continue;
+                }
+                let mut pair = None;
+                'p: for (i, a) in star.iter().enumerate() {
+                    for b in star.iter().skip(i + 1) {
+                        if a.1.iter().filter(|x| b.1.contains(x)).count() == 1 {
+                            pair = Some((a.0, b.0));
+                            break 'p;
+                        }
+                    }
+                }
+                let Some((ka, kb)) = pair else { continue };
+                let doomed: Vec<CellKey> = star.iter().map(|x| x.0).filter(|k| *k != ka && *k != kb).collect();
+                for ck in &doomed {
+                    let uuid = tds.get_cell(*ck)?.uuid();
+                    tds.verif_cells_mut().remove(*ck);
+                    tds.verif_uuid_to_cell_key_mut().remove(&uuid);
+                }
+                let keys: Vec<CellKey> = tds.cell_keys().collect();
+                for k in keys {
+                    if let Some(c) = tds.get_cell_by_key_mut(k) {
+                        if let Some(n) = c.verif_neighbors_mut().as_mut() {
+                            for x in n.iter_mut() {
+                                if x.map(|y| doomed.contains(&y)).unwrap_or(false) {
+                                    *x = None;
+                                }
+                            }
+                        }
+                    }
+                }
+                let vkeys: Vec<VertexKey> = tds.vertex_keys().collect();
+                for w in vkeys {
+                    let needs = tds.get_vertex_by_key(w).map(|x| x.incident_cell.map(|c| doomed.contains(&c)).unwrap_or(false)).unwrap_or(false);
+                    if needs {
+                        let holder = tds.cells().find(|(_, c)| c.vertices().contains(&w)).map(|(k, _)| k);
+                        if let Some(vx) = tds.get_vertex_by_key_mut(w) {
+                            vx.incident_cell = holder;
+                        }
+                    }
+                }
+                return Some(format!("vertex {:?}: kept {:?} and {:?}, deleted {} star cells", v, ka, kb, doomed.len()));
+            }
+            None
+        }
         _ => None,
     }
 }
 
 struct Verdicts {
+    /// public Level-3 component validators called directly: facet degree, closed boundary, ridge
+    /// links, vertex links (None = the facet map could not be built)
+    components: Option<[bool; 4]>,
     tds_is_valid: bool,
     tds_validate: bool,
     lib_l1: bool,
@@ -327,7 +384,16 @@ where
         let dt = DelaunayTriangulation::<K, i32, i32, D>::from_tds_with_topology_guarantee(tds, K::default(), gu.to_lib());
         let t = dt.tds();
         let lib_l1 = t.vertices().all(|(_, v)| (*v).is_valid().is_ok()) && t.cells().all(|(_, c)| c.is_valid().is_ok());
+        let components = t.build_facet_to_cells_map().ok().map(|map| {
+            [
+                delaunay::topology::manifold::validate_facet_degree(&map).is_ok(),
+                delaunay::topology::manifold::validate_closed_boundary(t, &map).is_ok(),
+                delaunay::topology::manifold::validate_ridge_links(t).is_ok(),
+                delaunay::topology::manifold::validate_vertex_links(t, &map).is_ok(),
+            ]
+        });
         Verdicts {
+            components,
             tds_is_valid: t.is_valid().is_ok(),
             tds_validate: t.validate().is_ok(),
             lib_l1,
@@ -386,6 +452,17 @@ where
     }
     if ref_l1 && ref_l2 {
         let l3 = refcheck::check_l3(&m, None);
+        // the owning component validators, each judged only when the components before it hold
+        if let Some(c) = v.components {
+            report(out, "manifold::validate_facet_degree", c[0], l3.facet_degree.is_empty(), l3.facet_degree.first().cloned().unwrap_or_default());
+            if l3.facet_degree.is_empty() {
+                report(out, "manifold::validate_closed_boundary", c[1], l3.closed_boundary.is_empty(), l3.closed_boundary.first().cloned().unwrap_or_default());
+                report(out, "manifold::validate_ridge_links", c[2], l3.ridge_links.is_empty(), l3.ridge_links.first().cloned().unwrap_or_default());
+                if l3.closed_boundary.is_empty() && l3.ridge_links.is_empty() && l3.isolated.is_empty() {
+                    report(out, "manifold::validate_vertex_links", c[3], l3.vertex_links.is_empty(), l3.vertex_links.first().cloned().unwrap_or_default());
+                }
+            }
+        }
         if l3.orientation_ambiguous == 0 {
             let f3 = l3.fails_is_valid(gu);
             report(out, "Triangulation::is_valid", v.tri_is_valid, f3.is_empty(), f3.first().cloned().unwrap_or_default());
